@@ -249,6 +249,11 @@ pub fn hevc_annexb_to_hvcc(data: &[u8]) -> Vec<u8> {
 
 /// Check if the given Annex B data represents an HEVC keyframe (IRAP).
 pub fn is_hevc_keyframe(data: &[u8]) -> bool {
+    // Empty input contains no IRAP picture.
+    if data.is_empty() {
+        return false;
+    }
+
     assert_invariant!(
         !data.is_empty(),
         "INV-503: HEVC keyframe detection requires non-empty data"
@@ -270,11 +275,8 @@ pub fn is_hevc_keyframe(data: &[u8]) -> bool {
         }
     }
 
-    assert_invariant!(
-        AnnexBNalIter::new(data).count() > 0,
-        "INV-505: HEVC keyframe detection must find at least one NAL unit"
-    );
-
+    // Input without any NAL unit (no start code) is not a keyframe either; that is a
+    // property of the caller's bytes and is reported through the return value.
     false
 }
 
